@@ -636,6 +636,13 @@ def modCands (xmin xmax ymin ymax : Int) : List Int :=
     let xs := if xmin = xmax then [xmin] else [xmin, xmax]
     xs.flatMap (fun xv => [Int.tmod xv ymin, Int.tmod xv ymax])
 
+/-- CASE 3 of `Modulo::prune`: were all `(x, y)` pairs enumerated (fixed divisor: every dividend
+value; small divisor range: only with a small dividend range)? -/
+def modExh (xmin xmax ymin ymax : Int) : Bool :=
+  if ymin = ymax then true
+  else if ymax - ymin ≤ 10 then decide (xmax - xmin ≤ 10)
+  else false
+
 /-- `i32::min` / `i32::max` of the two theoretical multipliers in CASE 4 of `Modulo::prune` (they are
 in reverse order for a negative divisor) -/
 def kLo (a b : Int) : Int := if a ≤ b then a else b
@@ -664,7 +671,9 @@ def pruneMod (x y : IView) (s : Nat) (ctx : Ctx) : Option Ctx :=
      else some ctx)
     >>>= (fun c =>
       let cs := modCands xmin xmax ymin ymax
-      if cs.isEmpty then some c else c.trySetMin s (Dom.dmin cs) >>>= (·.trySetMax s (Dom.dmax cs)))
+      -- bounds are taken from the candidates only when every (x, y) pair was enumerated
+      if !(modExh xmin xmax ymin ymax) || cs.isEmpty then some c
+      else c.trySetMin s (Dom.dmin cs) >>>= (·.trySetMax s (Dom.dmax cs)))
     >>>= (fun c =>
       if ymin = ymax ∧ smin = smax ∧ smin ≥ 0 ∧ smin < ymin.natAbs then
         let kmin := Int.tdiv (xmin - smin) ymin
